@@ -45,8 +45,8 @@ def verus(P, impls, u, prop="C10"):
     for T in targets(P):
         for v in P.variants:
             d = desig(v, T)
-            if not d.s("into", "marks", {}).get(T) and d.ty != T and d.ty == "bool":
-                u.skip_verus = "vstd has no spec for From<bool>; this program is decided by Kani only"
+            if not d.s("into", "marks", {}).get(T) and d.ty != T and (d.ty == "bool" or (d.ty, T) not in WIDEN):
+                u.skip_verus = "vstd has no spec for the conversion %s -> %s; this program is decided by Kani only" % (d.ty, T)
                 return u
     for T in targets(P):
         im = [i for i in ims if re.sub(r"\s+", "", i.trait_args) == re.sub(r"\s+", "", T)]
